@@ -100,16 +100,17 @@ DoNew(S, kind) ==
 
 \* mount(): what the mountpoint currently is decides (fuse_kern_mount: open /dev/fuse, stat the mountpoint, mount(2))
 \*   "hang": the stat needs an answer from this very session and nobody is reading (the harness' watchdog then
-\*   aborts every connection of the history; the call returns the stat error)
+\*   aborts the mounted connections; the call returns the stat error)
 MountCase(S) ==
   LET t == Top(S) IN
   IF ~AsFoundRemount /\ S.file # 0 /\ Live(S, S.file) THEN "already"      \* repaired: a connected fuse file = mounted
   ELSE IF t = 0 THEN "free"
   ELSE IF Dead(S, t) THEN "dead-top"
   ELSE IF S.conn[t].inited /\ BlockedOn(S, t) # {} THEN "served" ELSE "hang"
+\* (the harness releases a hung call by aborting every connection that is mounted on the mountpoint)
 KillAll(S) == LET RECURSIVE F(_, _)
                   F(T, ks) == IF ks = {} THEN T ELSE LET k == CHOOSE x \in ks : TRUE IN F(Kill(T, k), ks \ {k})
-              IN F(S, Conns)
+              IN F(S, {k \in Conns : S.conn[k].att})
 MountNew(S) ==
   LET k == FreshConn(S) IN
   LET S1 == CloseFd(S, S.file) IN
